@@ -31,17 +31,20 @@ CLAIM = dict(
 RULE = (
     "states = canonical (cov.frame, rounded cov, frame+coordinates of private cov.orb, cov._orb_frame, attached state's "
     "frame) reached by replaying a history of operations on fresh objects; every operation of the alphabet is applied in "
-    "every state that satisfies the invariant; a case = (root, history, operation). non-trivial = the operation really "
+    "every state that satisfies the invariant; a case = (root, history, operation); root = (start frame, orbit, matrix, "
+    "epoch), and collision chains run roots that differ in exactly one of these in one process, in both orders. non-trivial = the operation really "
     "converts (target differs from the frame the covariance had); distinct by (root, canonical source state, operation)"
 )
 BOUNDS = {
-    "quick": "EOP zero; 7 start frames x 3 (orbit, matrix) pairings: every state reachable in <= 2 operations fully "
-    "expanded for one pairing per start frame (histories of length <= 3), every state reachable in 1 operation for the "
-    "other two (length <= 2); + depth-1 check of Cov built with a frame *name*",
-    "thorough": "EOP zero: 7 start frames x 3 orbits x 3 matrices; real IERS tables: 7 start frames, one (orbit, matrix) "
-    "pairing each; "
-    "breadth-first to depth 5 (the property's bound) — the search reaches its fixpoint (no new canonical state) at "
-    "depth 4, so histories of every length are covered",
+    "quick": "EOP zero, epoch d0: 7 start frames x 3 (orbit, matrix) pairings, histories of length <= 3 for one pairing "
+    "per start frame (= fixpoint on a tree where the property holds), length <= 2 for the other two; + 48 collision "
+    "chains (one process each, both orders, histories of length <= 2 per root): 4 epochs for each start frame, 3 orbits "
+    "/ 3 matrices for each start frame, 7 start frames for each pairing; + depth-1 check of Cov built with a frame name",
+    "thorough": "EOP zero: 7 start frames x 3 orbits x 3 matrices at epoch d0 and real IERS tables: 7 start frames, "
+    "breadth-first to depth 5 (the property's bound; the search reaches its fixpoint at depth 3 resp. 4, so histories "
+    "of every length are covered); collision chains in both orders with histories of length <= 3 per root: 4 epochs for "
+    "7 start frames x 3 pairings, 3 orbits / 3 matrices per start frame, 7 start frames per pairing; epoch chains also "
+    "with real IERS tables (length <= 2)",
 }
 ASSUMPTIONS = [
     "the 6x6 map of a state between two Earth-centred built-in frames at one date is linear and is what "
@@ -49,11 +52,14 @@ ASSUMPTIONS = [
     "for Earth-fixed targets 'R' is the full 6x6 kinematic map (rotation + omega coupling) of the state, whose position "
     "block is a pure rotation; for QSW/TNW it is blockdiag(T, T) with the textbook triad of the inertial r, v",
     "a state in which the invariant fails is reported and not expanded (its futures are meaningless)",
-    "one date (2012-06-15T08:30:17.25 UTC); covariance attached as Cov(orb, C, orb.frame)",
+    "four epochs (2012-06-15T08:30:17.25 UTC, +6 h, +3 d, 2004-02-29T21:15:40); the oracle always uses the frame map at "
+    "the root's own epoch; covariance attached as Cov(orb, C, orb.frame)",
+    "the outcome of a unit is a deterministic function of the units executed before it in the same process and of the "
+    "unit itself (collision chains exist precisely to expose state the library keeps between conversions)",
 ]
 NOT_COVERED = (
     "re-attachment of a covariance through the `orb.cov = ...` setter, covariances initially given in QSW/TNW or in a "
-    "frame other than the state's, non-Earth centres, other dates, histories longer than the depth bound unless the "
+    "frame other than the state's, non-Earth centres, dates other than the four epochs, histories longer than the depth bound unless the "
     "search reached its fixpoint (reported in notes)"
 )
 
@@ -67,7 +73,14 @@ OPS = (
     + [("drag", x) for x in FRAMES]
     + [("ocopy", x) for x in FRAMES]
 )
-DATE_ARGS = (2012, 6, 15, 8, 30, 17, 250000)
+# epochs: hours, days and years apart (all inside the span of the IERS tables used by the 'real' configuration)
+EPOCHS = {
+    "d0": (2012, 6, 15, 8, 30, 17, 250000),
+    "d1": (2012, 6, 15, 14, 30, 17, 250000),
+    "d2": (2012, 6, 18, 8, 30, 17, 250000),
+    "d3": (2004, 2, 29, 21, 15, 40, 0),
+}
+DATE_ARGS = EPOCHS["d0"]
 MU = 3.986004418e14
 
 # (a, e, i, Om, w, nu) — LEO, GTO (r not perpendicular to v), retrograde
@@ -159,12 +172,13 @@ def _speed_cache():
         raise RuntimeError("iau2010._xysxy2 is not a pure function of the date")
 
 
-def _date():
+def _date(epoch="d0"):
     from beyond.dates import Date
 
-    if "date" not in _W:
-        _W["date"] = Date(*DATE_ARGS)
-    return _W["date"]
+    k = ("date", epoch)
+    if k not in _W:
+        _W[k] = Date(*EPOCHS[epoch])
+    return _W[k]
 
 
 def root_rv(orbit):
@@ -193,10 +207,10 @@ def triad(kind, rv):
     return out
 
 
-def frame_map(src, dst):
-    """6x6 linear map of a cartesian state from frame src to frame dst at the fixed date, from Frame.transform on
-    basis states."""
-    key = (src, dst)
+def frame_map(src, dst, epoch="d0"):
+    """6x6 linear map of a cartesian state from frame src to frame dst at the date of `epoch`, from Frame.transform
+    on basis states (fresh StateVector objects carrying that date)."""
+    key = (epoch, src, dst)
     if key in _W["R"]:
         return _W["R"][key]
     from beyond.frames.frames import get_frame
@@ -207,11 +221,11 @@ def frame_map(src, dst):
         m = np.identity(6)
     else:
         cols = []
-        zero = np.array(fs.transform(StateVector([0.0] * 6, _date(), "cartesian", fs), fd), dtype=float)
+        zero = np.array(fs.transform(StateVector([0.0] * 6, _date(epoch), "cartesian", fs), fd), dtype=float)
         for k in range(6):
             e = [0.0] * 6
             e[k] = 1.0
-            cols.append(np.array(fs.transform(StateVector(e, _date(), "cartesian", fs), fd), dtype=float) - zero)
+            cols.append(np.array(fs.transform(StateVector(e, _date(epoch), "cartesian", fs), fd), dtype=float) - zero)
         m = np.array(cols).T
         # sanity of the trusted ingredient (a failure here is not a C14 matter: harness error)
         r3 = m[:3, :3]
@@ -232,7 +246,7 @@ def oracle(root, target):
     if target in LOCAL:
         r = triad(target, root_rv(root["orbit"]))
     else:
-        r = frame_map(root["S"], target)
+        r = frame_map(root["S"], target, root.get("epoch", "d0"))
     return r @ c0 @ r.T
 
 
@@ -253,7 +267,7 @@ def build_root(root):
     from beyond.orbits.cov import Cov
     from beyond.frames.frames import get_frame
 
-    orb = StateVector(root_rv(root["orbit"]), _date(), "cartesian", root["S"])
+    orb = StateVector(root_rv(root["orbit"]), _date(root.get("epoch", "d0")), "cartesian", root["S"])
     if ORBITS[root["orbit"]]["form"] != "cartesian":
         orb.form = ORBITS[root["orbit"]]["form"]
     fr = orb.frame if root.get("ctor", "frame") == "frame" else root["S"]
@@ -463,7 +477,7 @@ def check_case(case, t):
 
 
 def explore(root, depth, t, config):
-    rid = (config["eop"], root["S"], root["orbit"], root["matrix"], root.get("ctor", "frame"))
+    rid = (config["eop"], root["S"], root["orbit"], root["matrix"], root.get("ctor", "frame"), root.get("epoch", "d0"))
     w0 = build_root(root)
     k0 = canon(w0, root)
     seen = {k0}
@@ -508,14 +522,41 @@ def explore(root, depth, t, config):
         t.note("unexpanded states at the depth bound", len(frontier))
 
 
+def _chains(depth, epoch_pairings, single):
+    """Units that visit, in ONE process and in both orders, roots that collide on everything except one coordinate
+    (epoch / orbit / matrix / start frame): any state kept between conversions that is keyed without that coordinate
+    (a memoised rotation without the date, a local triad without the orbit, ...) makes the later root disagree with
+    the oracle of its own (S, orbit, date, matrix)."""
+    pair = {"LEO": "dense", "GTO": "diag", "RETRO": "rank3"}
+    orbs, eps = list(pair), list(EPOCHS)
+    out = []
+
+    def both(kind, roots):
+        out.append(dict(chain=kind, roots=roots, depth=depth))
+        out.append(dict(chain=kind + "-reversed", roots=roots[::-1], depth=depth))
+
+    for k, s in enumerate(STARTS):
+        for j in range(epoch_pairings):
+            o = orbs[(k + j) % 3]
+            both("epoch", [dict(S=s, orbit=o, matrix=pair[o], epoch=e) for e in eps])
+        if single:
+            both("orbit", [dict(S=s, orbit=o, matrix=MATRICES[k % 3], epoch=eps[k % 4]) for o in orbs])
+            both("matrix", [dict(S=s, orbit=orbs[(k + 1) % 3], matrix=m, epoch=eps[(k + 1) % 4]) for m in MATRICES])
+    if single:
+        for j, o in enumerate(orbs):
+            both("start-frame", [dict(S=s, orbit=o, matrix=pair[o], epoch=eps[(j + 2) % 4]) for s in STARTS])
+    return out
+
+
 def units(tier, seed):
-    """Cost per root (measured): depth 2 = 2 s, depth 3 = 30 s, fixpoint (reached at depth 4, ~1250 states x 44
-    operations) = 115 s.  Units are ordered by decreasing cost so the pool stays balanced."""
+    """Cost per root (CPU, measured): on a tree where the property holds the search reaches its fixpoint at depth 3
+    (132 states x 44 operations, 8 s; depth 2: 1.6 s); on the tree with the stale-_orb_frame defect depth 2 = 2 s,
+    depth 3 = 30 s, fixpoint at depth 4 (~1250 states) = 115 s.  Units are ordered by decreasing cost."""
     pair = {"LEO": "dense", "GTO": "diag", "RETRO": "rank3"}
     rot = lambda lst: lst[seed % len(lst):] + lst[: seed % len(lst)] if lst else lst
     named = [
         dict(root=dict(S="EME2000", orbit="LEO", matrix="dense", ctor="name"), depth=1),
-        dict(root=dict(S="TEME", orbit="GTO", matrix="diag", ctor="name"), depth=1),
+        dict(root=dict(S="TEME", orbit="GTO", matrix="diag", ctor="name", epoch="d1"), depth=1),
     ]
     if tier == "quick":
         cfg = {"eop": "pass"}
@@ -525,18 +566,27 @@ def units(tier, seed):
             for j, o in enumerate(orbs):
                 p = dict(root=dict(S=s, orbit=o, matrix=pair[o]), depth=3 if j == k % 3 else 2)
                 (big if p["depth"] == 3 else small).append((cfg, p))
-        return rot(big) + rot(small) + [(cfg, p) for p in named]
+        chains = [(cfg, p) for p in _chains(2, 1, True)]
+        chains.sort(key=lambda x: -len(x[1]["roots"]))
+        return rot(big) + chains + rot(small) + [(cfg, p) for p in named]
     u = []
     cfg = {"eop": "pass"}
-    u += rot([(cfg, dict(root=dict(S=s, orbit=o, matrix=m), depth=5)) for s in STARTS for o in ORBITS for m in MATRICES])
     cfg2 = {"eop": "real"}
     orbs = list(pair)
+    u += [(cfg, p) for p in _chains(3, 3, True)]
+    u += rot([(cfg, dict(root=dict(S=s, orbit=o, matrix=m), depth=5)) for s in STARTS for o in ORBITS for m in MATRICES])
     u += rot([(cfg2, dict(root=dict(S=s, orbit=orbs[k % 3], matrix=pair[orbs[k % 3]]), depth=5)) for k, s in enumerate(STARTS)])
+    u += [(cfg2, p) for p in _chains(2, 1, False)]
     u += [(c, p) for c in (cfg, cfg2) for p in named]
     return u
 
 
 def run_unit(p, t):
+    if "roots" in p:
+        for root in p["roots"]:
+            explore(root, p["depth"], t, _W["config"])
+        t.note("collision chains (roots differing in one coordinate, explored in one process)", 1)
+        return
     explore(p["root"], p["depth"], t, _W["config"])
 
 
